@@ -29,7 +29,7 @@ pub fn hist_strategy(
     max_ops: usize,
     max_prepop: usize,
 ) -> impl Strategy<Value = HistCase> {
-    (pool_strategy(), 2u8..=4, cfg, prepop_strategy(max_prepop), proptest::collection::vec(rawop_strategy(), 0..=max_ops), 0usize..EMB_POOLS.len())
+    (pool_strategy(), 2u8..=7, cfg, prepop_strategy(max_prepop), prop_oneof![11 => proptest::collection::vec(rawop_strategy(), 0..=max_ops), 1 => proptest::collection::vec(rawop_strategy(), max_ops..=3 * max_ops)], 0usize..EMB_POOLS.len())
         .prop_map(|(pool, depth, cfg, prepop, ops, sel)| {
             // stacks with an embedded layer draw their names from the fixture, so that the
             // history meets the read-only layer's files and directories
@@ -206,8 +206,10 @@ pub fn effective(case: &HistCase) -> (Vec<String>, usize) {
     pool.dedup();
     let mut depth = case.depth as usize;
     let maxd = match pool.len() {
-        0..=3 => 4,
-        _ => 3,
+        0..=2 => 7,
+        3 => 4,
+        4..=8 => 3,
+        _ => 2,
     };
     if depth > maxd {
         depth = maxd;
